@@ -11,6 +11,7 @@ import (
 	"fmt"
 	"os"
 	"path/filepath"
+	"strings"
 
 	"github.com/deadsy/sdfx/render"
 	"github.com/deadsy/sdfx/sdf"
@@ -28,10 +29,25 @@ func tri(k int) *sdf.Triangle3 {
 	return &sdf.Triangle3{{X: f, Y: 0, Z: 0}, {X: f, Y: 1, Z: 0}, {X: f, Y: 0, Z: 1}}
 }
 
+// mixedSizes: write sizes of the "scripted-mixed" renderers (small, large, empty, beyond the flush threshold)
+var mixedSizes = []int{1, 3, 10, 60, 2, 0, 130, 1, 300, 4}
+
 type scripted3 struct{ n int }
 
 func (s scripted3) Render(_ sdf.SDF3, out sdf.Triangle3Writer) {
 	k := 0
+	if s.n < 0 {
+		for _, m := range mixedSizes {
+			var b []*sdf.Triangle3
+			for i := 0; i < m; i++ {
+				b = append(b, tri(k))
+				k++
+			}
+			out.Write(b)
+		}
+		out.Close()
+		return
+	}
 	for k < s.n {
 		var b []*sdf.Triangle3
 		for i := 0; i < 100 && k < s.n; i++ {
@@ -47,6 +63,20 @@ func (s scripted3) Info(sdf.SDF3) string { return "scripted" }
 type scripted2 struct{ n int }
 
 func (s scripted2) Render(_ sdf.SDF2, out sdf.Line2Writer) {
+	if s.n < 0 {
+		k := 0
+		for _, m := range mixedSizes {
+			var b []*sdf.Line2
+			for i := 0; i < m; i++ {
+				f := float64(k)
+				b = append(b, &sdf.Line2{{X: f, Y: 0}, {X: f, Y: 1}})
+				k++
+			}
+			out.Write(b)
+		}
+		out.Close()
+		return
+	}
 	for k := 0; k < s.n; {
 		var b []*sdf.Line2
 		for i := 0; i < 50 && k < s.n; i++ {
@@ -140,6 +170,12 @@ func (sc scen) body() func() {
 				}
 			case "octree":
 				r3, s3 = render.NewMarchingCubesOctree(2), field()
+			case "octree1":
+				r3, s3 = render.NewMarchingCubesOctree(1), field()
+			case "octree-nothing": // no surface in the box: the buffer is empty when the render closes it
+				r3 = render.NewMarchingCubesOctree(2)
+			case "uniform-nothing":
+				r3 = render.NewMarchingCubesUniform(2)
 			}
 			var r2 render.Render2 = scripted2{sc.Items}
 			var s2 sdf.SDF2 = dummy2{}
@@ -150,6 +186,10 @@ func (sc scen) body() func() {
 				r2, s2 = render.NewMarchingSquaresQuadtree(6), field2()
 			case "dc2d":
 				r2, s2 = render.NewDualContouring2D(6), field2()
+			case "ms-uniform-nothing":
+				r2 = render.NewMarchingSquaresUniform(3)
+			case "ms-quadtree-nothing":
+				r2 = render.NewMarchingSquaresQuadtree(3)
 			}
 			if sc.Batch {
 				switch sc.Sink {
@@ -334,6 +374,23 @@ func main() {
 		scen{Sink: "svg", Renderer: "scripted", Items: 3, Renders: 1, Plan: &vos.Plan{Limit: -1, FailCreate: true}, Workers: 2, Bound: -1, Then: true, Batch: true},
 		scen{Sink: "dxf", Renderer: "scripted", Items: 3, Renders: 1, Plan: none(), Path: filepath.Join(work, "no-such-dir", "z.dxf"), Workers: 2, Bound: -1, Then: true, Batch: true},
 		scen{Sink: "dxf", Renderer: "scripted", Items: 3, Renders: 1, Plan: none(), Path: "/dev/full", Workers: 2, Bound: -1, Then: true, Batch: true})
+	// scripted renderers with mixed write sizes (small, then beyond the flush threshold, empty, ...), renders that
+	// produce nothing at all, and the coarsest octree: no fault, every sink
+	for _, path := range []string{filepath.Join(work, "ok-mixed")} {
+		scens = append(scens, scen{Sink: "stl", Renderer: "scripted", Items: -1, Renders: 2, Plan: none(), Workers: 2, Bound: -1},
+			scen{Sink: "svg", Renderer: "scripted", Items: -1, Renders: 2, Plan: none(), Workers: 2, Bound: -1},
+			scen{Sink: "triangles", Renderer: "scripted", Items: -1, Renders: 2, Plan: none(), Workers: 2, Bound: -1},
+			scen{Sink: "3mf", Renderer: "scripted", Items: -1, Renders: 1, Plan: none(), Path: path + ".3mf", Workers: 2, Bound: -1},
+			scen{Sink: "dxf", Renderer: "scripted", Items: -1, Renders: 1, Plan: none(), Path: path + ".dxf", Workers: 2, Bound: -1})
+	}
+	for _, rn := range []string{"octree1", "octree-nothing", "uniform-nothing"} {
+		for _, w := range []int{1, 2} {
+			scens = append(scens, scen{Sink: "triangles", Renderer: rn, Renders: 2, Plan: none(), Workers: w, Bound: 1}, scen{Sink: "stl", Renderer: rn, Renders: 2, Plan: none(), Workers: w, Bound: 1})
+		}
+	}
+	for _, rn := range []string{"ms-uniform-nothing", "ms-quadtree-nothing"} {
+		scens = append(scens, scen{Sink: "dxf", Renderer: rn, Renders: 1, Plan: none(), Path: filepath.Join(work, "ok-"+rn+".dxf"), Workers: 1, Bound: -1})
+	}
 	// a lattice whose layers hold exactly one full evaluation batch (100 points), no fault at all
 	for _, w := range []int{1, 2} {
 		scens = append(scens, scen{Sink: "triangles", Renderer: "uniform100", Renders: 1, Plan: none(), Workers: w, Bound: 0},
@@ -384,7 +441,7 @@ func main() {
 			}
 			// renderers without a process-wide worker pool start nothing that may outlive the call: a thread
 			// still parked after the call returned is left behind once per render
-			if x.Leaked > 0 && !x.Deadlock && sc.Renderer != "uniform" && sc.Renderer != "uniform100" {
+			if x.Leaked > 0 && !x.Deadlock && !strings.HasPrefix(sc.Renderer, "uniform") {
 				j.Violation(fmt.Sprintf("To%s|goroutine-left-behind|%s", sc.Sink, pn), fmt.Sprintf("render to %s (%s renderer, %d items, plan %s) returned with %d goroutines still parked: %v", sc.Sink, sc.Renderer, sc.Items, pn, x.Leaked, x.LeakedOps), rep())
 			}
 			for k, v := range vos.Current.Fired {
